@@ -660,5 +660,44 @@ func ruleIDValReset(c *Ctx) []Obligation {
 	if n == 0 {
 		obs = append(obs, undecided(R, "identity filing sites", c.Pos(fn.Pos()), "no store into the identity dictionary found"))
 	}
+	// identities that are NOT filed this run (a submodule nobody includes any longer) must not keep an earlier run's
+	// lists either: some nil store to Identity.Values sits in a loop over the whole table of submodules
+	con := "the identities of every submodule in the set are cleared, included or not"
+	mods := c.MustNamed("yang", "Modules")
+	fSub := FieldVar(mods, "SubModules")
+	swept := false
+	for _, st := range c.storesToFieldDeep(fn, fValues) {
+		if !isNilConst(st.Val) {
+			continue
+		}
+		// an enclosing loop ranges over Modules.SubModules (directly, or over its sorted values)
+		for h := loopHeaderOf(st.Block()); h != nil; {
+			for _, b := range fn.Blocks {
+				for _, in := range b.Instrs {
+					var ranged ssa.Value
+					switch x := in.(type) {
+					case *ssa.Range:
+						ranged = x.X
+					case *ssa.Call:
+						if c.returnsSorted(x) && len(x.Call.Args) > 0 {
+							ranged = x.Call.Args[0]
+						}
+					}
+					if ranged == nil || !b.Dominates(st.Block()) {
+						continue
+					}
+					if _, f, _ := loadedField(ranged); f == fSub {
+						swept = true
+					}
+				}
+			}
+			break
+		}
+	}
+	if swept {
+		obs = append(obs, ok(R, con, c.Pos(fn.Pos()), "a reset sweep over Modules.SubModules"))
+	} else {
+		obs = append(obs, bad(R, con, c.Pos(fn.Pos()), "value lists are cleared only for the identities that are filed: a submodule that is loaded but no longer included (an older revision, once a newer one is loaded) keeps the lists of the earlier run, so its tree differs from the one a batch load gives"))
+	}
 	return obs
 }
